@@ -15,6 +15,7 @@
 (*  "san"     pos, labels [[m, text]]   text = SAN, labels distinct        *)
 (*  "uci"     pos, texts [[m, text, parsed]]                               *)
 (*  "mirror"  pos, mir, a, b            mir = Mirror(pos), a = -b          *)
+(*  "scoremirror" pos, mir, a, b        leaf evaluation of pos and MirrorEp *)
 (*  "attack"  kind, sq, occ, att        att = SliderAttacks(kind, sq, occ) *)
 (*  "leaper"  kind, sq, att             knight / king tables               *)
 (*  "attackmap" b, white, att           whole attack map of a crowded board *)
@@ -105,6 +106,18 @@ CheckMirror(r) ==
   /\ ("mm" \notin DOMAIN r \/ (Abs1(r.a) < r.mm /\ Abs1(r.b) < r.mm)
         \/ Bad("static score not strictly below every mate score", <<r.a, r.b, r.mm>>))
 
+\* C18 on the leaf evaluation itself (evaluate::score: terminal verdicts included): a position without castling
+\* rights and its colour-swapped, rotated twin (en-passant target carried along) score exactly opposite
+CheckScoreMirror(r) ==
+  LET pos == PosOf(r.pos) IN
+  IF ~Consistent(pos) \/ pos.rights # 0 THEN Skip("inconsistent position or castling rights held")
+  ELSE /\ (PosOf(r.mir) = MirrorEp(pos) \/ Bad("harness mirrored the position wrongly", 0))
+       \* (mate scores are i16::MAX/2 + d for White and i16::MIN/2 - d for Black: opposite in sign, one apart in
+       \* magnitude -- the property demands exact negation of the STATIC score, so mated positions are held to the sign only)
+       /\ (IF Verdict(pos, Legal(pos)) = "checkmate"
+           THEN (\A d \in 1..Len(r.a) : (r.a[d] > 0 /\ r.b[d] < 0) \/ (r.a[d] < 0 /\ r.b[d] > 0)) \/ Bad("a mated position and its twin do not score with opposite signs", <<r.a, r.b>>)
+           ELSE (\A d \in 1..Len(r.a) : r.a[d] = 0 - r.b[d]) \/ Bad("leaf evaluation is not colour-symmetric", <<r.a, r.b>>))
+
 \* C18: scores of a checkmated position for remaining depth 0..255 (index d+1), side = who is mated;
 \* a mate with more depth remaining is strictly better for the mating side; stalemate scores 0
 CheckMateScore(r) ==
@@ -184,6 +197,7 @@ Ok == lvl = 2 =>
         [] r.t = "san" -> CheckSan(r)
         [] r.t = "uci" -> CheckUci(r)
         [] r.t = "mirror" -> CheckMirror(r)
+        [] r.t = "scoremirror" -> CheckScoreMirror(r)
         [] r.t = "attack" -> CheckAttack(r)
         [] r.t = "leaper" -> CheckLeaper(r)
         [] r.t = "attackmap" -> CheckAttackMap(r)
